@@ -142,3 +142,77 @@ def filter_ctx(tname, name, ctx):
     if tname == 'NF':
         return {k: v for k, v in ctx.items() if k in ('shared', f'for_{name}')}
     return ctx
+
+
+# ---------------------------------------------------------------- value-grammar types (C07/C09/C15)
+from enum import Enum  # noqa: E402
+
+
+class Color(Enum):
+    RED = 1
+    GREEN = 2
+
+
+class Shade(Enum):
+    RED = 1
+    DARK = 'd'
+
+
+def _val_run(self):
+    from .events import emit
+    import os
+    if os.environ.get('VLAB_CTL'):
+        emit('vstart', key=self.cache_key, type=type(self).__name__)
+    return ('val', type(self).__module__, type(self).__qualname__, self.cache_key)
+
+
+@labtech.task
+class VA:
+    p: Any = None
+    q: Any = None
+
+    def run(self):
+        return _val_run(self)
+
+
+@labtech.task
+class VB:
+    p: Any = None
+    q: Any = None
+
+    def run(self):
+        return _val_run(self)
+
+
+@labtech.task
+class VAX:
+    p: Any = None
+    q: Any = None
+
+    def run(self):
+        return _val_run(self)
+
+
+@labtech.task(cache=JsonCache())
+class VJ:
+    p: Any = None
+    q: Any = None
+
+    def run(self):
+        return _val_run(self)
+
+
+@labtech.task
+class VP:
+    """post_init-derived attribute (C15)."""
+    p: Any = None
+    q: Any = None
+
+    def post_init(self):
+        object.__setattr__(self, 'derived', ('derived', repr(self.p)))
+
+    def run(self):
+        return _val_run(self)
+
+
+VTYPES = {c.__name__: c for c in (VA, VB, VAX, VJ, VP)}
